@@ -16,6 +16,14 @@ def it_next(vm, it):
     """advance any iterator value; returns None or a 1-tuple (item,)"""
     it = obj(vm, it)
     if isinstance(it, CharIdx): return charidx_next(vm, it, True)
+    if isinstance(it, Adt) and it.ty == 'Range':          # a Range used as an iterator in place ((0..n).try_for_each(..), for over &mut range)
+        lo, hi = it.fields
+        if isinstance(lo, int) and isinstance(hi, int):
+            if lo >= hi: return None
+        else:
+            bits = lo.size() if is_sym(lo) else hi.size()
+            if not truth(vm, vm.bv(lo, bits) < vm.bv(hi, bits)): return None          # Range<isize> / <i64>: signed; usize bounds in this crate stay far below 2^63
+        it.fields[0] = lo + 1; return (lo,)
     if not isinstance(it, It):
         if isinstance(it, (Adt, SymEnum)):      # a crate type implementing Iterator
             if not vm.mir.by_impl.get(('Iterator', it.ty, 'next')): raise Unmodelled(f'next on a non-iterator value {it!r}'[:200])
@@ -460,6 +468,28 @@ def _(vm, a, ci):
             if res.variant == 1: return res
             acc = res.fields[0]
         else: raise Unmodelled('try_fold over ' + res.ty)
+
+
+@trait(('Iterator', 'try_for_each'))
+def _(vm, a, ci):
+    it, f = a
+    # R is the closure's return type (fn generic args: F, R): Result<(), E> / Option<()> / ControlFlow<B, ()>
+    while True:
+        r = it_next(vm, it)
+        if r is None:
+            rty = ci.fnargs[1] if len(ci.fnargs) > 1 else ''
+            h = type_head(rty)[0]
+            if h == 'Option': return some(UNIT)
+            if h == 'ControlFlow': return Adt('ControlFlow', 0, [UNIT])
+            return ok(UNIT)
+        res = conc(vm, vm.call_value(f, [r[0]]))
+        if res.ty == 'Result':
+            if res.variant == 1: return res
+        elif res.ty == 'Option':
+            if res.variant == 0: return res
+        elif res.ty == 'ControlFlow':
+            if res.variant == 1: return res
+        else: raise Unmodelled('try_for_each over ' + res.ty)
 
 
 @trait(('Iterator', 'fold'))
